@@ -14,7 +14,10 @@ package main
 //     (meet over the call graph, greatest fixpoint; exported functions, method
 //     values and `go` statements guarantee nothing);
 //   * package-level variables that are written (or accessed atomically)
-//     outside `func init` get rows as well;
+//     outside `func init` get rows as well; a package-level mutex
+//     (`var mu sync.RWMutex`, locked as `mu.Lock()`) is recorded as held under
+//     the name "pkg.mu" and counts as belonging to ("same") the package-level
+//     variables of its package, never to a struct field;
 //   * references of pointer/slice/map type copied out of a guarded struct
 //     (returned, appended to caller-visible storage) are listed as escapes.
 //
@@ -593,7 +596,8 @@ func (w *lkWalker) isPkgVar(id *ast.Ident) bool {
 	return ok
 }
 
-// lockOp recognises  base.mu.Lock() / RLock() / Unlock() / RUnlock().
+// lockOp recognises  base.mu.Lock() / RLock() / Unlock() / RUnlock()  and the same calls on a
+// package-level mutex variable.
 func (w *lkWalker) lockOp(c *ast.CallExpr) (key string, hl lkHeldLock, op string, ok bool) {
 	sel, isSel := c.Fun.(*ast.SelectorExpr)
 	if !isSel || len(c.Args) != 0 {
@@ -606,6 +610,11 @@ func (w *lkWalker) lockOp(c *ast.CallExpr) (key string, hl lkHeldLock, op string
 	}
 	mu, isSel := sel.X.(*ast.SelectorExpr)
 	if !isSel {
+		// a package-level mutex (`providersMu.Lock()`): it can only guard package-level variables of
+		// its own package, so its "object" is the package (base "\x00", the base emitVar asks for)
+		if id, isId := sel.X.(*ast.Ident); isId && w.isPkgVar(id) && lkIsMutex(w.p.vars[id.Name]) {
+			return "\x00." + id.Name, lkHeldLock{name: w.p.name + "." + id.Name, base: "\x00", excl: sel.Sel.Name == "Lock"}, sel.Sel.Name, true
+		}
 		return
 	}
 	if !lkIsMutex(w.typeOf(mu)) {
